@@ -425,6 +425,9 @@ CONTROLS += [
           "                if node._requirements_fulfilled is None:\n                    node._requirements_fulfilled = True\n"
           "            elif node._requirements_fulfilled is None:\n                node._requirements_fulfilled = True\n", CC), None,
       'the flag initialiser only fills flags that are still None (a repair of KF-19): no alarm, and the KNOWN-FINDING line disappears'),
+    C('fire-get-children-default-unordered', 'fire', ['C01'],
+      sub("    def get_children(self, ordered: bool = True) -> List['XMLElement']:", "    def get_children(self, ordered: bool = False) -> List['XMLElement']:", XE), 'R-DOM.ordered-view',
+      'the default of get_children flips to the insertion order: the serialiser (which passes no argument) writes children in insertion order'),
     C('silent-reformat-all-modules', 'silent', ALL_PROPS, reformat_all_modules(), None, 'whole-program re-formatting'),
     C('silent-rename-all-locals-container', 'silent', ALL_PROPS, rename_all_locals(CC), None, 'every local of xmlchildcontainer.py renamed'),
     C('silent-rename-all-locals-parser', 'silent', ['C08', 'C09', 'C17', 'C19'], rename_all_locals(PA), None, 'every local of parser.py renamed'),
